@@ -249,7 +249,7 @@ def parse_result_list(out):
     return res
 
 
-def run_case_files(pid, requires, prelude, shards, judge_expr="map judge cases", timeout=900, opens=""):
+def run_case_files(pid, requires, prelude, shards, judge_expr="map judge cases", timeout=900, opens="", cases_type=None):
     """shards: list of lists of Coq terms (one term per case).  Each shard becomes one .v file:
          Require ...; prelude; Definition cases := [...]; Eval vm_compute in (<judge_expr>).
        Returns list (per shard) of list of ints, or raises RuntimeError with coqc's message."""
@@ -264,7 +264,7 @@ def run_case_files(pid, requires, prelude, shards, judge_expr="map judge cases",
             f.write("From Coq Require Import String Ascii List ZArith NArith Bool.\n")
             f.write(f"From Verif Require Import {requires}.\nImport ListNotations.\n{opens}\n")
             f.write(prelude + "\n")
-            f.write("Definition cases :=\n " + coq_term_list(shard) + ".\n")
+            f.write("Definition cases" + (f" : {cases_type}" if cases_type else "") + " :=\n " + coq_term_list(shard) + ".\n")
             f.write("Set Printing Width 1000000.\nSet Printing Depth 10000000.\n")
             f.write(f"Eval vm_compute in ({judge_expr}).\n")
         paths.append(path)
@@ -418,6 +418,8 @@ def finish(report, br, rule, trusted_base, assumptions, level="proof", checker_c
     os.makedirs(EVID, exist_ok=True)
     with open(os.path.join(EVID, f"{pid}.json"), "w") as f:
         json.dump(ev, f, indent=1, ensure_ascii=False, default=str)
+    for d in report.disagreements[:3]:
+        log("DISAGREEMENT:", json.dumps(d, ensure_ascii=False, default=str)[:600])
     for l in lines:
         log(l)
     log(f"{pid} {report.tier}: obligations {cov['discharged']}/{cov['obligations']}, evaluations {report.evaluations}, "
